@@ -1,21 +1,21 @@
 SPECIFICATION Spec
 CONSTANTS
-  MaxSize = 2
+  MaxSize = 4
   MaxBlocks = 3
   Inits = "full"
   KindMode = "two"
-  AlignVals = {2, 4, 8}
-  MaxAligned = 2
+  AlignVals = {4}
+  MaxAligned = 1
   ItemMode = "none"
   MaxItems = 0
   Addrs = {"4096"}
   Grows = {1, 2}
   Lates = FALSE
-  AddAligns = {}
+  AddAligns = {4, 8}
   OnlyTiled = FALSE
   NopKinds = {"1", "4"}
-  VariantSet = "align"
-  Rotate = 2
+  VariantSet = "none"
+  Rotate = 0
   Emit = TRUE
 INVARIANT Inv
 CHECK_DEADLOCK FALSE
